@@ -3,7 +3,7 @@
     byte stream [s : list N], every msize, every [lookup] (what lookup(tag,type)
     answers) and every body decoder verdict [dec]. *)
 From Coq Require Import NArith List Bool.
-From P9V Require Import gen.ConstGen Frame.Model Frame.ListN Frame.FrameProofs Frame.Instantiate Frame.DecodeProg Frame.DecodeTie Frame.Reader Frame.Imp gen.VecGen Frame.VecTie.
+From P9V Require Import gen.ConstGen Frame.Model Frame.ListN Frame.FrameProofs Frame.Instantiate Frame.DecodeProg Frame.DecodeTie Frame.RecvLL Frame.Reader Frame.Imp gen.VecGen Frame.VecTie.
 Require P9V.Codec.GenCheck P9V.gen.CodecGen P9V.Codec.Spec9P P9V.Codec.Reuse.
 Import ListNotations.
 Open Scope N_scope.
@@ -242,11 +242,26 @@ Theorem C02_vec_advance_agrees_bounded : forall views cur,
 Proof. exact vec_advance_agrees. Qed.
 Print Assumptions C02_vec_advance_agrees_bounded.
 
-(** "never panics": in these models the clause holds BY CONSTRUCTION -- [outcome] has no panic
-    constructor, recv and the decoders are total Gallina functions -- so it is not a theorem about the
-    Go code.  Its observed half is the harness: every recv call runs under recover, and the thorough
-    tier feeds random and mutated streams to the real recv and to a live Server.Handle for minutes;
-    a Go panic or hang is a violation with the stream as replay. *)
+(** "never panics".  recv written with Go's PARTIAL operations (Frame/RecvLL.v: uint32 subtractions that wrap,
+    data[:size] on a pooled slice of any length -- a run-time panic when out of range --, make sized by a
+    difference) and an explicit panic outcome: on every stream, msize, lookup, decoder and pool it returns [LVal] of the
+    total model -- the panic outcome is unreachable and no difference wraps (the size tests come first) *)
+Theorem C02_recv_no_panic : forall lookup dec closed msize pool s,
+  recv_ll lookup dec closed msize pool s = LVal (recv lookup dec closed msize s).
+Proof. exact recv_ll_total. Qed.
+Print Assumptions C02_recv_no_panic.
+
+Theorem C02_recv_never_panics : forall lookup dec closed msize pool s,
+  recv_ll lookup dec closed msize pool s <> LPanic.
+Proof. exact recv_never_panics. Qed.
+Print Assumptions C02_recv_never_panics.
+
+(** What remains BY CONSTRUCTION (not a theorem about the Go code): inside the decoders a failed bounds check is the
+    [None] of the option monad (Codec/Layout.v; buffer.go's consume/has/ReadString are matched exactly by go2coq
+    CodecGen and refused otherwise), the decode programs have no statement that can index (C02_program_verdict: they
+    are the canonical programs of their layouts), and the scheduler/runtime is outside the model.  The observed half
+    is the harness: every recv call runs under recover, the fuzz-style loop feeds random and mutated streams to the
+    real recv and to a live Server.Handle; a Go panic or hang is a violation with the stream as replay. *)
 
 (** the hypotheses are satisfiable: an 11-byte frame of type 120 (Tclunk) with tag 5 *)
 Example C02_wd_example : well_delimited 8192 [11; 0; 0; 0; 120; 5; 0; 1; 0; 0; 0].
